@@ -236,6 +236,7 @@ pub fn run_fasta(c: &Case) -> String {
     let mut sets = vec![fasta::RecordSet::default(), fasta::RecordSet::default(), fasta::RecordSet::default()];
     let mut slots: Vec<Option<fasta::Position>> = vec![None; 4];
     let mut out: Vec<String> = vec![];
+    let mut log_len = 0usize;
 
     for op in &c.ops {
         let res: Caught<String> = match op {
@@ -301,14 +302,17 @@ pub fn run_fasta(c: &Case) -> String {
                 Caught::Ok("Y".to_string())
             }
         };
+        let grew = log.borrow().len() != log_len;
+        log_len = log.borrow().len();
+        let sfx = if grew { format!("#{}", log_len) } else { String::new() };
         match res {
-            Caught::Ok(s) => out.push(s),
+            Caught::Ok(s) => out.push(s + &sfx),
             Caught::Panic => {
-                out.push("PANIC".to_string());
+                out.push("PANIC".to_string() + &sfx);
                 break;
             }
             Caught::Hang => {
-                out.push("HANG".to_string());
+                out.push("HANG".to_string() + &sfx);
                 break;
             }
         }
@@ -353,6 +357,7 @@ pub fn run_fastq(c: &Case) -> String {
     let mut sets = vec![fastq::RecordSet::default(), fastq::RecordSet::default(), fastq::RecordSet::default()];
     let mut slots: Vec<Option<fastq::Position>> = vec![None; 4];
     let mut out: Vec<String> = vec![];
+    let mut log_len = 0usize;
 
     for op in &c.ops {
         let res: Caught<String> = match op {
@@ -417,14 +422,17 @@ pub fn run_fastq(c: &Case) -> String {
                 Caught::Ok("Y".to_string())
             }
         };
+        let grew = log.borrow().len() != log_len;
+        log_len = log.borrow().len();
+        let sfx = if grew { format!("#{}", log_len) } else { String::new() };
         match res {
-            Caught::Ok(s) => out.push(s),
+            Caught::Ok(s) => out.push(s + &sfx),
             Caught::Panic => {
-                out.push("PANIC".to_string());
+                out.push("PANIC".to_string() + &sfx);
                 break;
             }
             Caught::Hang => {
-                out.push("HANG".to_string());
+                out.push("HANG".to_string() + &sfx);
                 break;
             }
         }
